@@ -85,8 +85,23 @@ def call_spec_fn(self, name, e, st):
         for k, v in st.ghost.items():
             if k not in s.ghost and k not in s.env:
                 s.ghost[k] = v        # same for ghost names (loop counters, key enumerations) introduced later
-        v, _ = self.ev1(e.args[1], s)
+        # cur(x) inside at(): the CURRENT value of the local x (a local re-assigned since the label), read in the label's heap
+        stack = getattr(self, "_at_cur_env", None)
+        if stack is None:
+            stack = self._at_cur_env = []
+        stack.append(st.env)
+        try:
+            v, _ = self.ev1(e.args[1], s)
+        finally:
+            stack.pop()
         return v
+    if name == "cur":
+        stack = getattr(self, "_at_cur_env", None)
+        if not stack or not isinstance(e.args[0], ast.Name):
+            raise ContractError("cur(name) is only meaningful inside at(...)")
+        if e.args[0].id not in stack[-1]:
+            raise ContractError(f"cur({e.args[0].id}): no such local")
+        return stack[-1][e.args[0].id]
     if name == "result":
         return self.spec_result
     if name in ("forall", "exists", "forall_t"):
@@ -183,6 +198,9 @@ def call_spec_fn(self, name, e, st):
     if name == "fresh":   # fresh(x): x was allocated by this call
         v = self.ev1(e.args[0], st)[0]
         return bool_val(v.z >= self.old_st.next_ref)
+    if name == "allocated":   # allocated(x): the reference x denotes an object that exists in the state where this is evaluated
+        v = self.ev1(e.args[0], st)[0]
+        return bool_val(z3.And(v.z >= 0, v.z < st.next_ref))
     if name == "same":    # same(a, b): reference identity
         a, b = self.ev1(e.args[0], st)[0], self.ev1(e.args[1], st)[0]
         if isinstance(a, Unknown) or isinstance(b, Unknown):
@@ -278,7 +296,7 @@ def _mentions(z, idset):
     return False
 
 
-SPEC_NAMES = {"madd", "mset", "remap", "keys_are", "wf", "last_result", "last_arg", "called_after", "old", "at", "result", "forall", "forall_t", "exists", "implies", "iff", "ite", "is_none", "val", "fresh", "same",
+SPEC_NAMES = {"allocated", "cur", "madd", "mset", "remap", "keys_are", "wf", "last_result", "last_arg", "called_after", "old", "at", "result", "forall", "forall_t", "exists", "implies", "iff", "ite", "is_none", "val", "fresh", "same",
               "ssum"}
 
 
@@ -1507,6 +1525,18 @@ def call_method(self, recv, name, args, kwargs, st, node):
                     st, Val(t.v, z3.Select(vals, kv.at(i).z)))]), None, distinct=True)
                 w.keys_seq = getattr(kv, "keys_seq", None)
                 yield w, st
+                return
+            if name == "elements" and t.counter and not a:
+                # Counter.elements(): every key repeated as often as its (positive) count -- here: a sequence of some length
+                # >= the number of keys with positive count, all of whose items are keys (multiplicities are not tracked)
+                n = fresh("nelem", z3.IntSort())
+                el = z3.Function(f"elem!{n}", z3.IntSort(), t.k.sort())
+                i = fresh("i", z3.IntSort())
+                d = self.dom(st, recv)
+                st.assume(n >= 0)
+                st.assume(z3.ForAll([i], z3.Implies(z3.And(0 <= i, i < n), z3.Select(d, el(i)))))
+                self.assume_log("Counter.elements(): an arbitrary sequence of keys of the counter (multiplicities not tracked)")
+                yield View(n, lambda j: Val(t.k, el(j)), t.k), st
                 return
             if name == "update" and t.counter:
                 x = self.iter_value(a[0], st)
